@@ -651,3 +651,416 @@ Proof.
     + exists (Some x). split; [reflexivity|]. simpl in E2. now rewrite <- E2.
     + simpl in E2. rewrite <- E2. exact IH.
 Qed.
+
+(* ---------------------------------------------------------------- decidable total order *)
+
+Lemma cmp_eqb_eq a b : cmp_eqb a b = true <-> a = b.
+Proof. destruct a, b; simpl; split; congruence. Qed.
+
+Lemma total_orderb_sound vcmp l : total_orderb vcmp l = true -> total_order_on vcmp l.
+Proof.
+  unfold total_orderb. intro H. apply andb_true_iff in H. destruct H as [H H3].
+  apply andb_true_iff in H. destruct H as [H1 H2].
+  rewrite forallb_forall in H1, H2, H3. repeat split.
+  - intros x Hx. apply cmp_eqb_eq. now apply H1.
+  - intros x y Hx Hy E. specialize (H2 x Hx). rewrite forallb_forall in H2. specialize (H2 y Hy).
+    apply andb_true_iff in H2. destruct H2 as [H2 _]. rewrite E in H2. now apply str_eqb_eq.
+  - intros x y Hx Hy. specialize (H2 x Hx). rewrite forallb_forall in H2. specialize (H2 y Hy).
+    apply andb_true_iff in H2. destruct H2 as [_ H2]. now apply cmp_eqb_eq.
+  - intros x y z Hx Hy Hz A B. specialize (H3 x Hx). rewrite forallb_forall in H3. specialize (H3 y Hy).
+    rewrite forallb_forall in H3. specialize (H3 z Hz).
+    destruct (vcmp x y); try congruence; destruct (vcmp y z); try congruence;
+      destruct (vcmp x z); simpl in H3; congruence.
+Qed.
+
+(* ---------------------------------------------------------------- entries after the last version entry *)
+
+Lemma no_vl_no_expr l : existsb is_version_like l = false -> mem_entry EVersionExpr l = false.
+Proof.
+  induction l as [|e l IH]; simpl; [reflexivity|]. intro H. apply orb_false_iff in H. destruct H as [He Hl].
+  destruct e; simpl in *; try discriminate; auto.
+Qed.
+
+Section Cut.
+  Variable vcmp : str -> str -> comparison.
+  Variable vmatch : str -> str -> bool.
+  Variable c : config.
+  Variable db : dbv.
+  Variable prev : option (found * option reason).
+  Variable rq : request.
+  Variable f : str.
+  Variable depth : nat.
+
+  Lemma vro_step_cut e l1 l2 :
+    existsb is_version_like l1 = existsb is_version_like l2 ->
+    mem_entry EVersionExpr l1 = mem_entry EVersionExpr l2 ->
+    vro_step vcmp vmatch c db prev rq f depth e l1 = vro_step vcmp vmatch c db prev rq f depth e l2.
+  Proof.
+    intros H1 H2. unfold vro_step, version_step, explicit_step. rewrite H1, H2. reflexivity.
+  Qed.
+
+  Lemma last_vl_stops e later v :
+    truthy (rq_version rq) = Some v -> is_version_like e = true ->
+    existsb is_version_like later = false ->
+    vro_step vcmp vmatch c db prev rq f depth e later <> Continue.
+  Proof.
+    intros TV He NV.
+    assert (X : forall w, explicit_step db (rq_name rq) w f depth later <> Continue).
+    { intro w. unfold explicit_step. destruct (find_version db (rq_name rq) w f); [discriminate|].
+      rewrite NV. discriminate. }
+    assert (VS : version_step vcmp vmatch db rq f depth e later <> Continue).
+    { unfold version_step. rewrite TV. rewrite (no_vl_no_expr later NV).
+      destruct (is_expr v && negb (entry_eqb e EVersionExpr)); [discriminate|].
+      destruct (if entry_eqb e EVersionExpr then if is_expr v then Some v else truthy (rq_expr rq) else None)
+        as [x|]; [|apply X].
+      destruct (is_expr x); [|apply X].
+      destruct (select_latest vcmp (find_by_expr vmatch db (rq_name rq) x f)); [discriminate|apply X]. }
+    destruct e; try discriminate; exact VS.
+  Qed.
+
+  Lemma loop_cut pre e post v :
+    truthy (rq_version rq) = Some v -> is_version_like e = true ->
+    existsb is_version_like post = false ->
+    vro_loop vcmp vmatch c db prev rq f depth (pre ++ e :: post) =
+    vro_loop vcmp vmatch c db prev rq f depth (pre ++ [e]).
+  Proof.
+    intros TV He NV. induction pre as [|e' pre IH]; cbn [app vro_loop].
+    - rewrite (vro_step_cut e post []); [|simpl; exact NV|simpl; now apply no_vl_no_expr].
+      pose proof (last_vl_stops e [] v TV He eq_refl) as NC.
+      destruct (vro_step vcmp vmatch c db prev rq f depth e []) as [|[[p r]|]]; [contradiction|reflexivity|reflexivity].
+    - rewrite (vro_step_cut e' (pre ++ e :: post) (pre ++ [e])).
+      + destruct (vro_step vcmp vmatch c db prev rq f depth e' (pre ++ [e])) as [|[[p r]|]]; auto.
+      + rewrite !existsb_app. simpl. rewrite He. now rewrite !orb_true_r.
+      + rewrite !mem_entry_app. simpl. rewrite (no_vl_no_expr post NV).
+        destruct (entry_eqb EVersionExpr e); reflexivity.
+  Qed.
+End Cut.
+
+Lemma find_from_vro_none_prev vcmp vmatch c db f depth vro rq :
+  find_from_vro vcmp vmatch c db None f depth vro rq =
+  match vro_loop vcmp vmatch c db None rq f depth vro with
+  | Some (p, r, _) => Some (p, r)
+  | None => None
+  end.
+Proof. unfold find_from_vro. destruct (vro_loop _ _ _ _ _ _ _ _ _) as [[[p r] e0]|]; reflexivity. Qed.
+
+Lemma walk_cut vcmp vmatch c db f depth pre e post rq :
+  truthy (rq_version rq) <> None -> is_version_like e = true -> existsb is_version_like post = false ->
+  find_from_vro vcmp vmatch c db None f depth (pre ++ e :: post) rq =
+  find_from_vro vcmp vmatch c db None f depth (pre ++ [e]) rq.
+Proof.
+  intros TV He NV. destruct (truthy (rq_version rq)) as [v|] eqn:E; [|contradiction].
+  rewrite !find_from_vro_none_prev. now rewrite (loop_cut vcmp vmatch c db None rq f depth pre e post v).
+Qed.
+
+(* ---------------------------------------------------------------- inert prefixes *)
+
+Lemma inert_step vcmp vmatch c db rq f depth e later :
+  wf_db db = true -> is_inert e = true ->
+  vro_step vcmp vmatch c db None rq f depth e later = Continue.
+Proof.
+  intros WF He. destruct e; try discriminate; try reflexivity.
+  unfold vro_step. destruct (0 <? depth); [reflexivity|].
+  destruct (recognized c (lit "keep")); [|reflexivity].
+  unfold tag_step, find_tagged.
+  change (str_eqb (lit "keep") (lit "latest")) with false.
+  change (str_eqb (lit "keep") (lit "setup")) with false. cbv iota.
+  now rewrite (wf_no_keep db (rq_name rq) f WF).
+Qed.
+
+Lemma inert_loop vcmp vmatch c db rq f depth pre l :
+  wf_db db = true -> forallb is_inert pre = true ->
+  vro_loop vcmp vmatch c db None rq f depth (pre ++ l) = vro_loop vcmp vmatch c db None rq f depth l.
+Proof.
+  intros WF. induction pre as [|e pre IH]; cbn [app vro_loop forallb]; [reflexivity|].
+  intro H. apply andb_true_iff in H. destruct H as [He Hp].
+  rewrite (inert_step vcmp vmatch c db rq f depth e _ WF He). now apply IH.
+Qed.
+
+(* entries that a request naming no version passes over *)
+Definition skipped_when_bare (e : entry) : bool := is_inert e || is_version_like e.
+
+Lemma bare_loop vcmp vmatch c db rq f depth pre l :
+  wf_db db = true -> truthy (rq_version rq) = None -> forallb skipped_when_bare pre = true ->
+  vro_loop vcmp vmatch c db None rq f depth (pre ++ l) = vro_loop vcmp vmatch c db None rq f depth l.
+Proof.
+  intros WF TV. induction pre as [|e pre IH]; cbn [app vro_loop forallb]; [reflexivity|].
+  intro H. apply andb_true_iff in H. destruct H as [He Hp].
+  assert (S : vro_step vcmp vmatch c db None rq f depth e (pre ++ l) = Continue).
+  { unfold skipped_when_bare in He. apply orb_true_iff in He. destruct He as [He|He].
+    - now apply inert_step.
+    - destruct e; try discriminate; unfold vro_step, version_step; now rewrite TV. }
+  rewrite S. now apply IH.
+Qed.
+
+Lemma tag_hit vcmp vmatch c db rq f depth t rest p :
+  recognized c t = true -> str_eqb t (lit "latest") = false -> str_eqb t (lit "setup") = false ->
+  tag_designates db (rq_name rq) t f = Some p ->
+  vro_loop vcmp vmatch c db None rq f depth (ETag t :: rest) = Some (p, (ETag t, None), ETag t).
+Proof.
+  intros R L S T. cbn [vro_loop]. unfold vro_step. rewrite R. unfold tag_step, find_tagged.
+  rewrite L, S, find_chain_tagged_spec, T. reflexivity.
+Qed.
+
+(* ---------------------------------------------------------------- first stack wins *)
+
+Lemma find_version_first db1 s db2 n v f :
+  (forall s', In s' db1 -> declared s' n v f = false) -> declared s n v f = true ->
+  find_version (db1 ++ s :: db2) n v f = Some (found_in s n v f).
+Proof.
+  intros H1 H2. rewrite find_version_spec. unfold version_designates. rewrite first_some_app.
+  rewrite first_some_none; [simpl; now rewrite H2|]. intros a Ha. now rewrite (H1 a Ha).
+Qed.
+
+Lemma find_tagged_first vcmp db1 s db2 n t v f :
+  str_eqb t (lit "latest") = false -> str_eqb t (lit "setup") = false ->
+  (forall s' v', In s' db1 -> chain_version s' n f t = Some v' -> declared s' n v' f = false) ->
+  chain_version s n f t = Some v -> declared s n v f = true ->
+  find_tagged vcmp (db1 ++ s :: db2) n t f = Some (found_in s n v f).
+Proof.
+  intros L S H1 H2 H3. unfold find_tagged. rewrite L, S, find_chain_tagged_spec.
+  unfold tag_designates. rewrite first_some_app. rewrite first_some_none.
+  - simpl. now rewrite H2, H3.
+  - intros a Ha. destruct (chain_version a n f t) as [v'|] eqn:E; [|reflexivity].
+    now rewrite (H1 a v' Ha E).
+Qed.
+
+(* ---------------------------------------------------------------- results carry the flavor asked for *)
+
+Lemma fold_higher_in vcmp r : forall b, In (fold_left (higher vcmp) r b) (b :: r).
+Proof.
+  induction r as [|y r IH]; intro b; simpl; [now left|].
+  specialize (IH (higher vcmp b y)). destruct IH as [E|H].
+  - rewrite <- E. unfold higher. destruct (vcmp _ _); auto.
+  - auto.
+Qed.
+
+Lemma highest_in vcmp l p : highest vcmp l = Some p -> In p l.
+Proof. destruct l as [|a l]; simpl; [discriminate|]. intro H. injection H as <-. apply fold_higher_in. Qed.
+
+Lemma first_some_in {A B} (g : A -> option B) l b : first_some g l = Some b -> exists a, In a l /\ g a = Some b.
+Proof.
+  induction l as [|a l IH]; simpl; [discriminate|]. destruct (g a) eqn:E.
+  - intro H. injection H as <-. exists a. auto.
+  - intro H. destruct (IH H) as [a' [Ha Hg]]. exists a'. auto.
+Qed.
+
+Lemma clause_flavor vcmp vmatch c db n vr f e later p :
+  clause vcmp vmatch c db n vr f e later = Yield p -> fd_flavor p = f /\ fd_name p = n.
+Proof.
+  assert (HC : forall l, highest vcmp (filter l (candidates db n f)) = Some p -> fd_flavor p = f /\ fd_name p = n).
+  { intros l H. apply highest_in in H. apply filter_In in H. destruct H as [H _]. eapply candidates_flavor; eauto. }
+  assert (HC0 : highest vcmp (candidates db n f) = Some p -> fd_flavor p = f /\ fd_name p = n).
+  { intro H. apply highest_in in H. eapply candidates_flavor; eauto. }
+  assert (HV : forall v l, or_fail (version_designates db n v f) l = Yield p -> fd_flavor p = f /\ fd_name p = n).
+  { intros v l H. unfold or_fail in H. destruct (version_designates db n v f) as [q|] eqn:E.
+    - injection H as ->. unfold version_designates in E. apply first_some_in in E. destruct E as [s [_ E]].
+      destruct (declared s n v f); [|discriminate]. injection E as <-. simpl. auto.
+    - destruct (existsb is_version_like l); discriminate. }
+  assert (HT : forall t, tag_designates db n t f = Some p -> fd_flavor p = f /\ fd_name p = n).
+  { intros t E. unfold tag_designates in E. apply first_some_in in E. destruct E as [s [_ E]].
+    destruct (chain_version s n f t) as [v|]; [|discriminate].
+    destruct (declared s n v f); [|discriminate]. injection E as <-. simpl. auto. }
+  assert (HO : forall o, of_option o = Yield p -> o = Some p).
+  { intros [q|] H; simpl in H; [now injection H as ->|discriminate]. }
+  destruct e; cbn [clause]; try discriminate.
+  - destruct vr as [|v ox|x]; try discriminate.
+    + apply HV.
+    + destruct (mem_entry EVersionExpr later); discriminate.
+  - destruct vr as [|v ox|x]; try discriminate.
+    + apply HV.
+    + destruct (mem_entry EVersionExpr later); discriminate.
+  - destruct vr as [|v ox|x]; try discriminate.
+    + destruct ox as [x|].
+      * unfold expr_designates. destruct (highest vcmp (filter _ (candidates db n f))) as [q|] eqn:E.
+        -- intro H. injection H as ->. eapply HC; eauto.
+        -- apply HV.
+      * apply HV.
+    + unfold or_fail, expr_designates. destruct (highest vcmp (filter _ (candidates db n f))) as [q|] eqn:E.
+      * intro H. injection H as ->. eapply HC; eauto.
+      * destruct (existsb is_version_like later); discriminate.
+  - destruct (recognized c t); [|discriminate].
+    destruct (str_eqb t (lit "latest")); [intro H; apply HO in H; auto|].
+    destruct (str_eqb t (lit "setup")); [discriminate|]. intro H. apply HO in H. eauto.
+Qed.
+
+Lemma designates_top_flavor vcmp vmatch c db n vr f depth vro p :
+  designates_top vcmp vmatch c db n vr f depth vro = Some p -> fd_flavor p = f /\ fd_name p = n.
+Proof.
+  induction vro as [|e l IH]; simpl; [discriminate|].
+  destruct (clause vcmp vmatch c db n vr f e l) as [q| |] eqn:E; [|discriminate|exact IH].
+  destruct (acceptable vr depth q); [|exact IH]. intro H. injection H as ->. eapply clause_flavor; eauto.
+Qed.
+
+(* ---------------------------------------------------------------- explicit top-level versions *)
+
+Lemma accept_loop_version vcmp vmatch c db keep prev f rq v : forall fuel vro p r,
+  truthy (rq_version rq) = Some v -> is_expr v = false ->
+  accept_loop vcmp vmatch fuel c db keep prev f 0 vro rq = Ok (Some (p, r)) -> fd_version p = v.
+Proof.
+  induction fuel as [|k IH]; intros vro0 p r TV NE; [discriminate|].
+  cbn [accept_loop]. destruct vro0 as [|e l]; [discriminate|].
+  set (cand := match find_from_vro vcmp vmatch c db prev f 0 (e :: l) rq with
+               | Some (p0, r0) => Some (p0, Some r0)
+               | None => match prev with
+                         | Some (op, _) => if keep || opt_str_eqb (fd_version op) (rq_version rq)
+                                           then Some (op, None) else None
+                         | None => None
+                         end
+               end).
+  destruct cand as [[p0 r0]|]; [|discriminate].
+  rewrite TV, NE. cbn [Nat.eqb negb andb].
+  destruct (str_eqb (fd_version p0) v) eqn:EV; cbn [negb].
+  - intro H. injection H as <- _. now apply str_eqb_eq.
+  - destruct r0 as [[tag x]|]; [|discriminate].
+    destruct (index_of tag (e :: l)); [|discriminate]. apply IH; assumption.
+Qed.
+
+Lemma resolve_version vcmp vmatch c db keep prev flavors vro rq v p r :
+  truthy (rq_version rq) = Some v -> is_expr v = false ->
+  resolve_request vcmp vmatch c db keep prev flavors 0 vro rq = Ok (Some (p, r)) -> fd_version p = v.
+Proof.
+  intros TV NE. unfold resolve_request. induction flavors as [|f fs IH]; cbn [flavor_loop]; [discriminate|].
+  destruct (accept_loop vcmp vmatch (S (length vro)) c db keep prev f 0 vro rq) as [[[p0 r0]|]|] eqn:E.
+  - intro H. injection H as -> ->. eapply accept_loop_version; eauto.
+  - exact IH.
+  - discriminate.
+Qed.
+
+(* ---------------------------------------------------------------- shapes of the default VRO *)
+
+Lemma accept_none vcmp vmatch c db keep f depth vro rq k :
+  find_from_vro vcmp vmatch c db None f depth vro rq = None ->
+  accept_loop vcmp vmatch (S k) c db keep None f depth vro rq = Ok None.
+Proof. intro H. cbn [accept_loop]. destruct vro; [reflexivity|]. now rewrite H. Qed.
+
+Lemma accept_deep vcmp vmatch c db keep prev f d vro rq k p r :
+  find_from_vro vcmp vmatch c db prev f (S d) vro rq = Some (p, r) ->
+  accept_loop vcmp vmatch (S k) c db keep prev f (S d) vro rq = Ok (Some (p, Some r)).
+Proof.
+  intro H. cbn [accept_loop]. destruct vro as [|e l].
+  - unfold find_from_vro in H. simpl in H. discriminate.
+  - rewrite H. destruct (truthy (rq_version rq)); reflexivity.
+Qed.
+
+Lemma undeclared_fails_walk vcmp vmatch c db f depth pre post rq v :
+  wf_db db = true -> forallb is_inert pre = true ->
+  truthy (rq_version rq) = Some v -> is_expr v = false -> truthy (rq_expr rq) = None ->
+  (forall s, In s db -> declared s (rq_name rq) v f = false) ->
+  existsb is_version_like post = false ->
+  find_from_vro vcmp vmatch c db None f depth (pre ++ EVersion :: EVersionExpr :: post) rq = None.
+Proof.
+  intros WF IN TV NE TX ND NV.
+  replace (pre ++ EVersion :: EVersionExpr :: post) with ((pre ++ [EVersion]) ++ EVersionExpr :: post)
+    by (rewrite <- app_assoc; reflexivity).
+  rewrite walk_cut; [|rewrite TV; discriminate|reflexivity|exact NV].
+  rewrite <- app_assoc. cbn [app]. rewrite find_from_vro_none_prev, inert_loop by assumption.
+  assert (FV : find_version db (rq_name rq) v f = None)
+    by (rewrite find_version_spec; now apply version_designates_none).
+  cbn [vro_loop]. unfold vro_step, version_step, explicit_step. rewrite TV, NE, TX, FV. reflexivity.
+Qed.
+
+Lemma undeclared_fails_resolve vcmp vmatch c db keep flavors depth pre post rq v :
+  wf_db db = true -> forallb is_inert pre = true ->
+  truthy (rq_version rq) = Some v -> is_expr v = false -> truthy (rq_expr rq) = None ->
+  (forall f s, In f flavors -> In s db -> declared s (rq_name rq) v f = false) ->
+  existsb is_version_like post = false ->
+  resolve_request vcmp vmatch c db keep None flavors depth (pre ++ EVersion :: EVersionExpr :: post) rq = Ok None.
+Proof.
+  intros WF IN TV NE TX ND NV. unfold resolve_request.
+  induction flavors as [|f fs IH]; cbn [flavor_loop]; [reflexivity|].
+  rewrite accept_none.
+  - apply IH. intros f0 s Hf. apply ND. now right.
+  - eapply undeclared_fails_walk; eauto. intros s Hs. apply ND; [now left|assumption].
+Qed.
+
+Lemma pretag_walk vcmp vmatch c db f depth pre t rest rq p :
+  wf_db db = true -> forallb is_inert pre = true ->
+  recognized c t = true -> str_eqb t (lit "latest") = false -> str_eqb t (lit "setup") = false ->
+  tag_designates db (rq_name rq) t f = Some p ->
+  find_from_vro vcmp vmatch c db None f depth (pre ++ ETag t :: rest) rq = Some (p, (ETag t, None)).
+Proof.
+  intros WF IN R L S T. rewrite find_from_vro_none_prev, inert_loop by assumption.
+  now rewrite (tag_hit vcmp vmatch c db rq f depth t rest p R L S T).
+Qed.
+
+Lemma pretag_resolve vcmp vmatch c db keep f fs d pre t rest rq p :
+  wf_db db = true -> forallb is_inert pre = true ->
+  recognized c t = true -> str_eqb t (lit "latest") = false -> str_eqb t (lit "setup") = false ->
+  tag_designates db (rq_name rq) t f = Some p ->
+  resolve_request vcmp vmatch c db keep None (f :: fs) (S d) (pre ++ ETag t :: rest) rq =
+  Ok (Some (p, Some (ETag t, None))).
+Proof.
+  intros WF IN R L S T. unfold resolve_request. cbn [flavor_loop].
+  rewrite (accept_deep vcmp vmatch c db keep None f d _ rq _ p (ETag t, None)); [reflexivity|].
+  now apply pretag_walk.
+Qed.
+
+Lemma posttag_walk vcmp vmatch c db f depth pre t rest rq p :
+  wf_db db = true -> truthy (rq_version rq) = None -> forallb skipped_when_bare pre = true ->
+  recognized c t = true -> str_eqb t (lit "latest") = false -> str_eqb t (lit "setup") = false ->
+  tag_designates db (rq_name rq) t f = Some p ->
+  find_from_vro vcmp vmatch c db None f depth (pre ++ ETag t :: rest) rq = Some (p, (ETag t, None)).
+Proof.
+  intros WF TV SK R L S T. rewrite find_from_vro_none_prev, bare_loop by assumption.
+  now rewrite (tag_hit vcmp vmatch c db rq f depth t rest p R L S T).
+Qed.
+
+(* ---------------------------------------------------------------- the rank rule *)
+
+Lemma index_of_some_mem e l i : index_of e l = Some i -> mem_entry e l = true.
+Proof.
+  revert i. induction l as [|x l IH]; simpl; intros i H; [discriminate|].
+  destruct (entry_eqb e x); [reflexivity|]. destruct (index_of e l) as [j|]; [|discriminate]. eauto.
+Qed.
+
+Lemma index_of_none_mem e l : index_of e l = None -> mem_entry e l = false.
+Proof.
+  induction l as [|x l IH]; simpl; [reflexivity|].
+  destruct (entry_eqb e x); [discriminate|]. destruct (index_of e l); [discriminate|]. auto.
+Qed.
+
+Lemma rank_rule vcmp vmatch c db op otag ox f depth vro rq p r e0 :
+  vro_loop vcmp vmatch c db (Some (op, Some (otag, ox))) rq f depth vro = Some (p, r, e0) ->
+  find_from_vro vcmp vmatch c db (Some (op, Some (otag, ox))) f depth vro rq =
+  match index_of otag vro, index_of e0 vro with
+  | Some i, Some j => if i <? j then Some (op, (otag, ox)) else Some (p, r)
+  | _, _ => Some (p, r)
+  end.
+Proof.
+  intro H. unfold find_from_vro. rewrite H.
+  destruct (index_of otag vro) as [i|] eqn:Ei.
+  - rewrite (index_of_some_mem _ _ _ Ei). destruct (index_of e0 vro) as [j|]; simpl; reflexivity.
+  - rewrite (index_of_none_mem _ _ Ei). reflexivity.
+Qed.
+
+(* ---------------------------------------------------------------- highest *)
+
+Lemma expr_highest_lemma vcmp vmatch db n x f p :
+  total_order_on vcmp (names_of db n) ->
+  select_latest vcmp (find_by_expr vmatch db n x f) = Some p ->
+  In p (candidates db n f) /\ vmatch (fd_version p) x = true /\
+  (forall q, In q (candidates db n f) -> vmatch (fd_version q) x = true ->
+             vcmp (fd_version q) (fd_version p) <> Gt) /\
+  find (fun q => str_eqb (fd_version q) (fd_version p))
+       (filter (fun q => vmatch (fd_version q) x) (candidates db n f)) = Some p.
+Proof.
+  intros HT H. rewrite expr_spec in H by assumption. unfold expr_designates in H.
+  apply (highest_best vcmp (names_of db n) HT) in H.
+  - destruct H as [I [M F]]. apply filter_In in I. destruct I as [I1 I2].
+    split; [assumption|]. split; [assumption|]. split; [|exact F].
+    intros q Hq Mq. apply M. apply filter_In. auto.
+  - intros q Hq. apply filter_In in Hq. destruct Hq as [Hq _]. now apply candidates_names in Hq.
+Qed.
+
+Lemma latest_highest_lemma vcmp db n f p :
+  total_order_on vcmp (names_of db n) ->
+  find_latest vcmp db n f = Some p ->
+  In p (candidates db n f) /\
+  (forall q, In q (candidates db n f) -> vcmp (fd_version q) (fd_version p) <> Gt) /\
+  find (fun q => str_eqb (fd_version q) (fd_version p)) (candidates db n f) = Some p.
+Proof.
+  intros HT H. rewrite find_latest_spec in H by assumption.
+  apply (highest_best vcmp (names_of db n) HT) in H; [exact H|].
+  intros q Hq. now apply candidates_names in Hq.
+Qed.
